@@ -810,16 +810,32 @@ func main() {
 	}
 	c.Set("stacks_with_class_instance_entries", nkind)
 	// configuration histories (history.go)
-	hb := histBound{MaxLen: 5, MaxObj: 3, NPrio: 2, NForm: 3, MaxKind: 1, Serve: true}
+	hbs := []histBound{{MaxLen: 5, MaxObj: 3, NPrio: 2, NForm: 3, MaxKind: 1, Serve: true}}
 	if !c.Quick() {
-		hb = histBound{MaxLen: 6, MaxObj: 3, NPrio: 3, NForm: 4, MaxKind: 1, Serve: true}
+		// longer histories over the small alphabet + the full alphabet (4 priority forms, post) at length 5
+		hbs = []histBound{{MaxLen: 6, MaxObj: 3, NPrio: 2, NForm: 3, MaxKind: 1, Serve: true}, {MaxLen: 5, MaxObj: 3, NPrio: 4, NForm: 4, MaxKind: 1, Serve: true}}
+	}
+	if v := os.Getenv("VERIF_C13_HISTBOUND"); v != "" { // experiments: JSON array of bounds
+		hbs = nil
+		if err := json.Unmarshal([]byte(v), &hbs); err != nil {
+			c.HarnessError("VERIF_C13_HISTBOUND: %v", err)
+		}
+	}
+	if os.Getenv("VERIF_C13_COUNT") != "" { // size of the history family, nothing is run
+		for _, hb := range hbs {
+			fmt.Printf("bound %+v: %d histories\n", hb, countHist(hb))
+		}
+		return
 	}
 	staticDir, derr := makeStaticDir()
 	if derr != nil {
 		c.HarnessError("static dir: %v", derr)
 	}
-	hshards := histShards(hb, staticDir, 3)
-	shards = append(shards, hshards...)
+	var histGenerated int64
+	for _, hb := range hbs {
+		histGenerated += countHist(hb)
+		shards = append(shards, histShards(hb, staticDir, 3)...)
+	}
 	// sibling groups inheriting 0..12 parent middlewares (slice capacities differ with the count)
 	for p := 0; p <= 12; p++ {
 		shards = append(shards, pool.Shard{Kind: "group", Arg: groupShard{Parents: []int{p}}})
@@ -864,7 +880,11 @@ func main() {
 	c.Set("middleware_stacks", len(stacks))
 	c.Set("config_histories", histN)
 	c.Set("config_history_route_requests", histRoutes)
-	c.Set("config_history_bound", hb)
+	c.Set("config_history_bound", hbs)
+	c.Set("config_history_example", histExample())
+	if histN != histGenerated && !c.Expired() {
+		c.HarnessError("configuration histories: generator counts %d, workers ran %d", histGenerated, histN)
+	}
 	if histUnreduced > 0 {
 		c.Set("config_history_failures_not_reduced", histUnreduced)
 	}
@@ -900,8 +920,12 @@ func replay(c *ev.Check) {
 			c.HarnessError("static dir: %v", derr)
 		}
 		cl, detail, _, _ := histClause(cs.Hist, dir)
-		os.RemoveAll(dir)
 		fmt.Printf("history %s\n%s\n%s\n", histString(cs.Hist), histScript(cs.Hist, dir), detail)
+		ho, routes, _ := histRun(cs.Hist, dir)
+		for _, q := range ho.Reqs {
+			fmt.Printf("route %d at %s: expected %q observed %q\n", q.Route, q.At, expectTrace(routes[q.Route]), q.Trace)
+		}
+		os.RemoveAll(dir)
 		if cl != "" {
 			c.Fail(key, cl, 0, cs, "replayed: "+detail)
 		}
